@@ -60,7 +60,9 @@ class InstructionsGraph:
     """
 
     def __init__(self, instructions):
-        instructions = deepcopy(instructions)
+        # every entry becomes a node of its own, also if the same object
+        # is listed several times
+        instructions = [deepcopy(instruction) for instruction in instructions]
         self.nodes = []
         for instruction in instructions:
             if isinstance(instruction, Gate):
